@@ -814,8 +814,36 @@ def _search_case(rng):
     return case
 
 
+ATTR_TEMPLATE = "K={mo.kind}|A={mo.norba}|B={mo.norbb}|N={atnums[0]}|E={extra[tag]}|\n{geometry}\nEND\n"
+
+
+def check_attr_template(case):
+    """user templates may reach into the fields with attribute and item access (`{mo.kind}`, `{extra[tag]}`): the
+    fields are the object's own attribute values, not copies converted to other types"""
+    data = build(case)
+    data.extra = {"tag": "v1"}
+    c2 = dict(case, template=ATTR_TEMPLATE, kwargs=None, cb=None, pre=False)
+    st, text, _fstate, _calls = run_impl(c2, data)
+    want = f"K={data.mo.kind}|A={data.mo.norba}|B={data.mo.norbb}|N={int(data.atnums[0])}|E=v1|\n"
+    if st != "ok":
+        return ("input-attribute-template", f"write_input(fmt={case['prog']!r}) with a template using {{mo.kind}} / {{extra[tag]}} ended with {st}")
+    if not text.startswith(want):
+        return ("input-attribute-template", f"template fields rendered as {text.splitlines()[0]!r}, expected {want.strip()!r}")
+    return None
+
+
 def search(ctx):
     rng = ctx.rng
+    for _ in range(ctx.n(40, 400)):
+        case = _search_case(rng)
+        if case["prog"] not in PROGRAMS or any(a[0] not in range(1, 119) for a in case["atoms"]):
+            continue
+        case["mo"] = _rand_mo(rng)
+        case["run_type"] = rng.choice(["opt", "energy", "freq"])  # run types both programs know
+        r = check_attr_template(case)
+        ctx.count("search-attribute-template", case, case["prog"] + ("/ok" if r is None else "/" + r[0]))
+        if r:
+            ctx.fail(r[0], r[1], {"kind": "attr-template", "case": {**case, "atoms": [list(a) for a in case["atoms"]]}})
     check_failures(ctx)
     for case, what in _callback_failure_cases():
         r = check_input(case)
@@ -916,4 +944,6 @@ def replay(ctx, obj):
                    for f in ctx.failures[n0:])
     case = obj["input"]["case"]
     case["atoms"] = [tuple(a) for a in case["atoms"]]
+    if obj["input"].get("kind") == "attr-template":
+        return check_attr_template(case) is not None
     return check_input(case) is not None
